@@ -8,8 +8,17 @@
 (*        kind in {"pure","bool","effect","hexop_ptr","hexop_val","prologue"}*)
 (*        uses: <<[n |-> id, m |-> "raw"|"dup"|"addr"|"member">>           *)
 (*   [ev |-> "Return", uses, callees]                                      *)
+(*        init: the initialiser of an effect with DUP(x) read as x; gcc:    *)
+(*        the variable is the effect of a GCC statement-expression          *)
 (* State: kinds (declared name -> kind), rawc / dupc (use counters),       *)
-(*        bad (first violated clause, "" if none), done.                   *)
+(*        bad (first violated clause, "" if none), done, inits, gccs.      *)
+(*                                                                         *)
+(* Named deviation StmtExprTwin (known finding KF-D12-stmtexpr-twin): the  *)
+(* statement of a value-producing statement-expression is built twice --   *)
+(* once as the statement's own effect, once more (operands DUP'ed) as the  *)
+(* statement-expression's effect; only the second is sequenced.  An        *)
+(* unconsumed effect that has such a twin is reported as "own-twin:", any  *)
+(* other unconsumed variable as "own:".                                    *)
 (***************************************************************************)
 EXTENDS Naturals, Sequences, FiniteSets, TLC
 
@@ -17,7 +26,8 @@ ILKinds == {"pure", "bool", "effect"}
 OwnedKinds == {"pure", "bool", "effect", "param_pure"}
 
 Init0(ambient) ==
-    [kinds |-> [n \in ambient |-> "ambient"], rawc |-> <<>>, dupc |-> <<>>, bad |-> "", done |-> FALSE, nret |-> 0]
+    [kinds |-> [n \in ambient |-> "ambient"], rawc |-> <<>>, dupc |-> <<>>, bad |-> "", done |-> FALSE, nret |-> 0,
+     inits |-> <<>>, gccs |-> {}]
 
 Flag(st, why) == IF st.bad = "" THEN [st EXCEPT !.bad = why] ELSE st
 
@@ -66,13 +76,20 @@ Step(st, ev, known, allowed) ==
             s1 == IF ev.name \in DOMAIN s0.kinds THEN Flag(s0, "declared twice: " \o ev.name) ELSE s0
             s2 == UseAll(s1, ev.uses, 1, known)
             s3 == CalleesOk(s2, ev.callees, allowed)
-        IN  [s3 EXCEPT !.kinds = (ev.name :> ev.kind) @@ s3.kinds]
+            hasInit == "init" \in DOMAIN ev /\ ev.init # ""
+        IN  [s3 EXCEPT !.kinds = (ev.name :> ev.kind) @@ s3.kinds,
+                       !.inits = IF hasInit THEN (ev.name :> ev.init) @@ s3.inits ELSE s3.inits,
+                       !.gccs = IF hasInit /\ ev.gcc THEN s3.gccs \cup {ev.name} ELSE s3.gccs]
     ELSE IF ev.ev = "Return" THEN
         LET s2 == UseAll(st, ev.uses, 1, known)
             s3 == CalleesOk(s2, ev.callees, allowed)
             unused == {n \in DOMAIN s3.kinds : s3.kinds[n] \in ILKinds /\ CountOf(s3.rawc, n) = 0}
+            twins == {n \in unused : n \in DOMAIN s3.inits /\ n \notin s3.gccs /\
+                                     \E g \in s3.gccs : s3.inits[g] = s3.inits[n] /\ CountOf(s3.rawc, g) = 1}
             s4 == IF unused = {} THEN s3
-                  ELSE Flag(s3, "own: initialised but never consumed: " \o (CHOOSE n \in unused : TRUE))
+                  ELSE IF unused \ twins # {}
+                  THEN Flag(s3, "own: initialised but never consumed: " \o (CHOOSE n \in unused \ twins : TRUE))
+                  ELSE Flag(s3, "own-twin: statement effect built twice, first copy never consumed: " \o (CHOOSE n \in twins : TRUE))
         IN  [s4 EXCEPT !.done = TRUE]
     ELSE Flag(st, "unknown event")
 
